@@ -689,6 +689,9 @@ func (b *Backend) respondList(c *Conn, ex *Exchange) bool {
 		return keep
 	}
 	switch {
+	case ph.Mode == "stall":
+		// a bounded stall has passed (phaseFault): the listing is merely slow
+		return b.simple(c, ex, 200, "application/json", ListingBody(b.cfg.Type, models))
 	case ph.Mode == "empty":
 		b.sim.Fault("list.empty")
 		return b.simple(c, ex, 200, "application/json", ListingBody(b.cfg.Type, nil))
